@@ -178,50 +178,14 @@ func wire(in Info) string {
 	return b.String()
 }
 
-// decoded builds the value by unmarshalling the peer's reply and checks that the decoder
-// delivered the shape that was sent (otherwise the comparison would be about another value).
+// decoded builds the value by unmarshalling the peer's reply.  The input of the property is then
+// the REPLY: whatever the decoder makes of it, the verification string of the decoded value has to
+// be the 5.1 construction over what the reply holds (a decoder that drops or alters a value changes
+// the string and is reported through the comparison with Ver, not excused here).
 func decoded(in Info) (disco.Info, error) {
 	var out disco.Info
 	if err := xml.Unmarshal([]byte(wire(in)), &out); err != nil {
 		return out, fmt.Errorf("unmarshal: %v", err)
-	}
-	if len(out.Identity) != len(in.IDs) || len(out.Features) != len(in.Feats) || len(out.Form) != len(in.Forms) {
-		return out, fmt.Errorf("decoded shape differs: %d/%d identities, %d/%d features, %d/%d forms",
-			len(out.Identity), len(in.IDs), len(out.Features), len(in.Feats), len(out.Form), len(in.Forms))
-	}
-	for i, id := range in.IDs {
-		g := out.Identity[i]
-		if g.Category != id.Cat.String() || g.Type != id.Type.String() || g.Lang != id.Lang.String() || g.Name != id.Name.String() {
-			return out, fmt.Errorf("decoded identity %d differs: %+v", i, g)
-		}
-	}
-	for i, f := range in.Feats {
-		if out.Features[i].Var != f.String() {
-			return out, fmt.Errorf("decoded feature %d differs", i)
-		}
-	}
-	for i, fm := range in.Forms {
-		if out.Form[i].Len() != len(fm.Fields) {
-			return out, fmt.Errorf("decoded form %d has %d fields, sent %d", i, out.Form[i].Len(), len(fm.Fields))
-		}
-		k := 0
-		var bad error
-		out.Form[i].ForFields(func(fd form.FieldData) {
-			want := fm.Fields[k]
-			if fd.Var != want.Var.String() || len(fd.Raw) != len(want.Vals) {
-				bad = fmt.Errorf("decoded form %d field %d differs", i, k)
-			} else {
-				for j, v := range want.Vals {
-					if fd.Raw[j] != v.String() {
-						bad = fmt.Errorf("decoded form %d field %d value %d differs", i, k, j)
-					}
-				}
-			}
-			k++
-		})
-		if bad != nil {
-			return out, bad
-		}
 	}
 	return out, nil
 }
